@@ -57,4 +57,42 @@ theorem IsDigitString_eq (s : Bytes) :
   · simp
   · simp; omega
 
+/-! ### SliceContain -/
+
+theorem SliceContain_eq (slice : List Bytes) (value : Bytes) :
+    SliceContain slice value = .ok (Glb.Aux.Str.sliceContain slice value) := by
+  unfold SliceContain
+  dsimp only
+  rw [loop_eq (σ := Int) (ρ := Bool)
+    (Inv := fun i => 0 ≤ i ∧ i ≤ slice.length)
+    (measure := fun i => ((slice.length : Int) - i).toNat)
+    (model := fun i => .ok (if Glb.Aux.Str.sliceContain (slice.drop i.toNat) value then .inr true
+                            else .inl (slice.length : Int)))]
+  · simp only [bind, Except.bind, pure, Except.pure, Int.toNat_zero, List.drop_zero]
+    cases h : Glb.Aux.Str.sliceContain slice value <;> simp
+  · intro i ⟨h0, hl⟩
+    obtain ⟨n, rfl⟩ : ∃ n : Nat, i = n := ⟨i.toNat, by omega⟩
+    simp only [StepOK, pure, Except.pure, len_eq, Int.toNat_natCast]
+    by_cases hn : n < slice.length
+    · obtain ⟨c, rest, hd⟩ : ∃ c rest, slice.drop n = c :: rest := by
+        cases h : slice.drop n with
+        | nil => have := length_of_drop_nil slice n h; omega
+        | cons c rest => exact ⟨c, rest, rfl⟩
+      have hc := idx_drop slice n c rest hd
+      have hrest := drop_succ_of_drop slice n c rest hd
+      have hn' : ((n : Int) < (slice.length : Int)) := by omega
+      simp only [hn', decide_true, hc, bind, Except.bind, hd, Glb.Aux.Str.sliceContain]
+      by_cases h1 : value = c
+      · simp [h1]
+      · simp only [h1, beq_iff_eq, if_false]
+        refine ⟨⟨by omega, by omega⟩, by omega, ?_⟩
+        have : ((n : Int) + 1).toNat = n + 1 := by omega
+        rw [this, hrest]
+    · have hn' : ¬ ((n : Int) < (slice.length : Int)) := by omega
+      have : slice.drop n = [] := List.drop_of_length_le (by omega)
+      simp [hn', this, Glb.Aux.Str.sliceContain]
+      omega
+  · simp
+  · simp; omega
+
 end Glb.Tie.TrStrutil
